@@ -58,7 +58,13 @@ namespace pika::concurrency::detail {
             //      the nature of execution will still remain the
             //      same.
             do {
-                util::yield_while([this] { return is_locked(); },
+                util::yield_while(
+                    [this] {
+#if defined(PIKA_VERIF)
+                        PIKA_VERIF_POINT(610, this);    // before the relaxed load of the spin loop
+#endif
+                        return is_locked();
+                    },
                     "pika::concurrency::detail::spinlock::lock", false);
             } while (!acquire_lock());
 
@@ -88,11 +94,20 @@ namespace pika::concurrency::detail {
         // returns whether the mutex has been acquired
         PIKA_FORCEINLINE bool acquire_lock()
         {
+#if defined(PIKA_VERIF)
+            PIKA_VERIF_POINT(611, this);    // before the exchange
+#endif
             return !v_.exchange(true, std::memory_order_acquire);
         }
 
         // relinquish lock
-        PIKA_FORCEINLINE void relinquish_lock() { v_.store(false, std::memory_order_release); }
+        PIKA_FORCEINLINE void relinquish_lock()
+        {
+#if defined(PIKA_VERIF)
+            PIKA_VERIF_POINT(612, this);    // before the releasing store
+#endif
+            v_.store(false, std::memory_order_release);
+        }
 
         PIKA_FORCEINLINE bool is_locked() const { return v_.load(std::memory_order_relaxed); }
     };
